@@ -365,6 +365,25 @@ def check(run):
                             % ('document' if kind == 'doc' else 'expression', f, describe(cases[i]), r[i], describe(cases[j]), r[j]),
                     'case': cases[i], 'renamed': cases[j], 'implementation': r[i], 'implementation_renamed': r[j],
                     'replay': 'bin/check C10 --replay <this file>'})
+    # metamorphic: binding a prefix to another URI first and to the intended one afterwards must give what
+    # binding it once gives (the last binding of a prefix is the caller's binding); implementation only
+    if r is not None:
+        base = [i for i, c in enumerate(cases) if c['kind'] == 'q' and c['bindings']]
+        rng.shuffle(base)
+        base = base[:(300 if run.tier == 'quick' else 3000)]
+        rb = [dict(cases[i], bindings=[(p, 'urn:rebound-first') for p, _ in cases[i]['bindings']] + list(cases[i]['bindings'])) for i in base]
+        rr, _, _ = run_three(rb, okr, False, False)
+        if rr is not None:
+            for i, c2, got in zip(base, rb, rr):
+                run.count('metamorphic:rebind'); run.evaluations += 1
+                if got != r[i]:
+                    run.failing_inputs.append({
+                        'property': 'C10', 'class': 'rebinding',
+                        'what': 'binding each prefix twice (first to another URI, then to the intended one) changes the result: %s gives `%s`, with the rebinding `%s`'
+                                % (describe(cases[i]), r[i], got),
+                        'case': cases[i], 'rebound': c2, 'implementation': r[i], 'implementation_rebound': got})
+                    if sum(1 for f in run.failing_inputs if f.get('class') == 'rebinding') >= 3:
+                        break
     def still_fails(cands):
         rr, _, ss = run_three(cands, okr, False, oks)
         return [a != b for a, b in zip(rr, ss)]
@@ -382,6 +401,15 @@ def check(run):
             'original': describe(cases[i]), 'replay': 'bin/check C10 --replay <this file>'})
     if fails:
         run.notes.append('%d failing inputs in all, %d distinct after shrinking the first 12' % (len(fails), len(reported)))
+    # namespace scopes on EDITED documents (shared dom campaign): namespace-sensitive queries on the edited
+    # tree against a re-parse of its serialisation
+    try:
+        from . import domlib as D
+        for g in D.query_findings(run, ('query',), only_queries=D.NS_QUERIES):
+            run.failing_inputs.append({'property': 'C10', 'class': 'namespaces-after-edit', 'what': g['what'], 'docs': g['docs'], 'ops': g['ops'], 'view': g['view'], 'clause': g['clause']})
+    except Exception as ex:
+        run.notes.append('edited-document stream not run: %r' % (ex,))
+
     return run.finish(level='proof',
         rule='one case = an abstract document (dump of every element) or a document + name test + axis + caller bindings; distinct by the abstract case; non-trivial = the document has at least one namespace declaration',
         assumptions=['documents are namespace-well-formed: no duplicate declarations in a start-tag, the prefix xmlns is not used, every prefix used is bound; no DTD (namespace declarations supplied by attribute defaults are not looked at by xml-rs)',
